@@ -172,7 +172,6 @@ func processChecks(r *rng.R, scratch, trimmerBin, thriftgoBin, repo string) []Pr
 	if sum, err := os.ReadFile(filepath.Join(repo, "go.sum")); err == nil {
 		os.WriteFile(filepath.Join(mod, "go.sum"), sum, 0o644)
 	}
-	generated := 0
 	for i := 0; i < 12; i++ {
 		g := &gen{r: r.Fork(), compileSafe: true}
 		p := g.newProgram(g.r.Range(1, 4))
@@ -181,28 +180,29 @@ func processChecks(r *rng.R, scratch, trimmerBin, thriftgoBin, repo string) []Pr
 		if err := writeTree(src, p.texts); err != nil {
 			continue
 		}
-		// namespaces keep the packages of different programs apart
+		// namespaces keep the packages of different programs apart ("main" would be package main)
 		for fn, text := range p.texts {
 			base := strings.TrimSuffix(filepath.Base(fn), ".thrift")
-			os.WriteFile(filepath.Join(src, filepath.FromSlash(fn)), []byte("namespace go "+name+"."+base+"\n"+text), 0o644)
+			os.WriteFile(filepath.Join(src, filepath.FromSlash(fn)), []byte("namespace go "+name+"."+base+"x\n"+text), 0o644)
 		}
-		outDir := filepath.Join(mod, "gen")
-		// plain generation first: a program the backend rejects anyway says nothing about trimming
+		// the untrimmed program first: one the backend rejects, or whose code does not compile, says
+		// nothing about trimming
 		if log, err := runIn(src, os.Environ(), thriftgoBin, "-r", "-g", "go:package_prefix=c16gen/plain", "-o", filepath.Join(mod, "plain"), "main.thrift"); err != nil {
 			add("trim_idl-skipped", name, true, "backend rejects the untrimmed program: "+log)
 			continue
 		}
-		log, err := runIn(src, os.Environ(), thriftgoBin, "-r", "-g", "go:trim_idl,package_prefix=c16gen/gen", "-o", outDir, "main.thrift")
+		if log, err := runIn(mod, goEnv(), "go", "build", "./plain/"+name+"/..."); err != nil {
+			add("trim_idl-skipped", name, true, "code of the untrimmed program does not compile: "+log)
+			continue
+		}
+		log, err := runIn(src, os.Environ(), thriftgoBin, "-r", "-g", "go:trim_idl,package_prefix=c16gen/gen", "-o", filepath.Join(mod, "gen"), "main.thrift")
 		if err != nil {
 			add("trim_idl-generate", name, false, log)
 			continue
 		}
-		generated++
 		add("trim_idl-generate", name, true, "")
-	}
-	if generated > 0 {
-		log, err := runIn(mod, goEnv(), "go", "build", "./gen/...")
-		add("trim_idl-compile", fmt.Sprintf("%d programs", generated), err == nil, log)
+		log, err = runIn(mod, goEnv(), "go", "build", "./gen/"+name+"/...")
+		add("trim_idl-compile", name, err == nil, log)
 	}
 	return out
 }
